@@ -100,6 +100,11 @@ class PowerMethod(Alg):
         with device:
             if self.norm_func is None:
                 self.max_eig = xp.linalg.norm(y).item()
+                if self.max_eig == 0:
+                    # A x = 0: the estimate is 0 and there is no direction
+                    # to normalise (0 / 0 would turn x into NaN).
+                    backend.copyto(self.x, y)
+                    return
             else:
                 self.max_eig = self.norm_func(y)
 
